@@ -9,7 +9,30 @@ from vlib import SPEC
 D = SPEC / "NonBlocking"
 
 
+def bulk_scenario(rng):
+    """many producers hammer a full queue behind a closed gate: only the conservation of lines is judged"""
+    P = rng.choice([4, 8])
+    n = rng.choice([3000, 6000])
+    s = [{"do": "gate", "open": False}] + [{"do": "offer", "p": p, "n": n} for p in range(1, P + 1)]
+    s += [{"do": "wait_producers_long"}, {"do": "gate", "open": True}, {"do": "wait_idle"}, {"do": "drop_guard"}]
+    return {"k": rng.choice([1, 2]), "lossy": True, "producers": P, "lines": n, "wfail": [], "ffail": [], "short": 0, "script": s, "kind": "bulk", "bulk": True}
+
+
+def shutdown_batch_scenario(rng):
+    """a write error on a later line of the very batch that ends with the guard's Shutdown message"""
+    L = rng.choice([3, 4, 5])
+    bad = rng.randint(2, L)
+    s = [{"do": "gate", "open": False}, {"do": "offer", "p": 1, "n": L}, {"do": "wait_producers"}, {"do": "sleep", "ms": 5},
+         {"do": "drop_guard_async"}, {"do": "sleep", "ms": 20}, {"do": "gate", "open": True}]
+    return {"k": 8, "lossy": rng.random() < 0.5, "producers": 1, "lines": L, "wfail": [bad], "ffail": [], "short": 0, "script": s, "kind": "shutdown_batch"}
+
+
 def scenario(rng):
+    c = rng.random()
+    if c < 0.02:
+        return bulk_scenario(rng)
+    if c < 0.08:
+        return shutdown_batch_scenario(rng)
     k = rng.choice([1, 1, 2, 4])
     lossy = rng.random() < 0.5
     P = rng.choice([1, 2, 3])
